@@ -30,6 +30,10 @@ CHECKS = {
    text="Has, First and Locate are modelled in Coq as separately defined evaluators (depth-first search with early exit; selection that carries normalized paths) over the fragment denotation of C05. Proved for all paths and data: Has is true exactly when Get is non-empty, First is the head of Get's result list (hence a member), and the values Locate points at are exactly Get's results in order. The real Has, FirstFound, Locate (every reported path re-evaluated with Get), Expr.Walk, GetNodes/FirstNode/Get on gen data, Get/Has on Keyed+Indexed wrappers and typed slices are compared with the extracted first_spec/has_spec/locate_spec/get_spec on seeded paths x trees. One genuine disagreement (slice normalisation of Locate/Walk, pinned by tests) is a recorded known finding, decided by an extracted specification variant.",
    technique="Coq proofs relating separately modelled evaluators to the Get denotation + correspondence of eight real evaluators and four data representations",
    design='6/C11'),
+ 'C13': dict(
+   text="Set, Del, Remove and Modify are specified in Coq as functional updates at the normalized paths the expression locates. Proved for every normalized path, update function and document: effect (afterwards the location holds the new value) and frame (every location diverging from the updated one keeps its value). The real Set/SetOne/Del/DelOne/Remove/RemoveOne/Modify/ModifyOne on simple and gen data are compared with the extracted specifications (the *One forms against the per-location candidates) on seeded paths x trees x values whenever the model says the request needs no element creation and the selected locations do not contain one another; panics are violations. Two genuine defects are recorded as known findings, each decided by an extracted specification variant.",
+   technique="Coq proofs of frame and effect for path updates + correspondence of eight mutation entry points against extracted update specifications",
+   design='6/C13'),
  'C12': dict(
    text="The script denotation (apply_bin/evals/script_match in Jp/Expr.v, numbers as exact rationals) is the executable Coq specification of the operator documentation; proved for all operands: == and != are complements, mismatched kinds and containers are unequal, ordering between different kinds is false, int/float compare by value, a missing path is Nothing for exists/has, evaluation is total (always yields a value), and Match(v) is membership in the filter result. Script.Match and filters are compared with the extracted denotation on the complete operator x left-kind x right-kind matrix (16 x 16 x 16 plus constants, missing paths and Nothing) and on seeded nested equations; every panic of the real code is a violation.",
    technique="Coq-specified operator semantics with proved laws + exhaustive operand-kind matrix correspondence",
